@@ -32,6 +32,7 @@ type hoDriver struct {
 	lg   *lockGen
 	bg   *bridgeGen
 	opts HandoverOpts
+	fill int // relayer transactions still waiting in the mempool from a flood (more than one block can carry)
 }
 
 func (d *hoDriver) emit(ev string, f Ev) {
@@ -65,6 +66,10 @@ func newHandoverSession(seed int64, run int) (*Session, *sim.BtcKey, error) {
 }
 
 func handoverHistory(w *tracew.Writer, seed int64, run, depth int, o HandoverOpts) error {
+	sim.MempoolMaxTx = 10 // the daemon's default
+	if o.Mode == "mutations" || o.Mode == "burst" {
+		sim.MempoolMaxTx = 64 // an operator-raised mempool: more waiting transactions than a block may carry
+	}
 	a, btcKey, err := newHandoverSession(seed, run)
 	if err != nil {
 		return err
@@ -247,10 +252,31 @@ func (d *hoDriver) height() error {
 	a.C.Eng.NextRequests = reqs
 	b.C.Eng.NextRequests = reqs
 
+	// Mempool floods (C08: "whatever the mempool contents ... stays within the 16-transaction cap"): now and then more valid
+	// relayer transactions than a block can carry are waiting; while they drain, no other relayer transaction is produced
+	// (their account sequences follow the flood's).
+	var fillers [][]byte
+	if d.fill == 0 && a.C.Height >= a.C.InitialHeight && (d.opts.Mode == "mutations" || d.opts.Mode == "burst") && rare(5) {
+		if vc, err := a.voteCtx(); err == nil {
+			n := 15 + r.Intn(12)
+			for i := 0; i < n; i++ {
+				if tx, err := a.AcceptTx(vc, 999, i); err == nil {
+					fillers = append(fillers, tx.Bytes)
+				}
+			}
+			d.fill = len(fillers)
+		}
+	}
+	if d.fill > 0 {
+		bp.Txs = nil
+	}
 	feedMempool := func() {
 		if a.C.Height >= a.C.InitialHeight { // CheckTx needs a committed block
 			for _, t := range bp.Txs {
 				a.C.App.CheckTx(&abci.RequestCheckTx{Tx: t.Bytes, Type: abci.CheckTxType_New})
+			}
+			for _, t := range fillers {
+				a.C.App.CheckTx(&abci.RequestCheckTx{Tx: t, Type: abci.CheckTxType_New})
 			}
 		}
 	}
@@ -464,6 +490,12 @@ func (d *hoDriver) height() error {
 		}
 		a.C.Eng.TakeLog()
 		b.C.Eng.TakeLog()
+		if d.fill > 0 {
+			d.fill -= len(proposal) - 1
+			if d.fill < 0 {
+				d.fill = 0
+			}
+		}
 		return d.committed("commit", a.C)
 	}
 }
